@@ -209,8 +209,85 @@ pub fn judge(root: &Path, c: &Case) -> Result<(bool, bool), (String, String)> {
     })
 }
 
+/// Metamorphic variant under concurrency: a peer removes one read-marked file X immediately before
+/// call k of the maintenance. Relation to the undisturbed run on an identical population: the
+/// files deleted are those of the reference run plus X, and every file the reference run moved to
+/// the back (other than X) is still moved to the back with its read mark cleared — a file that
+/// vanishes in the middle of a maintenance must not derail the rest of it.
+pub fn judge_vanish(root: &Path, c: &Case, k: u32) -> Result<bool, (String, String)> {
+    let base = now_ns() - 10 * DAY;
+    let dir = root.join("cache");
+    let cap = c.capacity;
+    let run = |peer: Option<(u32, String)>| -> Result<(Vec<String>, Vec<String>, u32, bool, u32), (String, String)> {
+        plant(&dir, &c.files, 0, base);
+        let before = snapshot(&dir);
+        let world = trace_world(&[root]);
+        let victim = peer.as_ref().map(|p| dir.join(&p.1));
+        let (r, ev) = traced(&world, || {
+            if let (Some((k, _)), Some(v)) = (&peer, victim.clone()) {
+                crate::shim::set_action(Some(Box::new(move || {
+                    let _ = std::fs::remove_file(&v);
+                })));
+                crate::shim::set_fault(crate::shim::Fault::Action(*k));
+            }
+            crate::shim::begin_op(0);
+            let r = kismet_cache::raw_cache::prune(dir.clone(), cap);
+            let calls = crate::shim::op_calls();
+            let hit = crate::shim::fault_was_hit();
+            crate::shim::set_fault(crate::shim::Fault::None);
+            crate::shim::set_action(None);
+            (r.map_err(|e| e.to_string()), calls, hit)
+        });
+        let after = snapshot(&dir);
+        crate::shim::bypass(|| {
+            let _ = std::fs::remove_dir_all(&dir);
+        });
+        let (res, calls, hit) = r.map_err(|p| ("maintenance:panic".to_string(), p))?;
+        if let Err(e) = res {
+            // a directory entry that vanished is not an error for maintenance
+            return Err(("maintenance:vanished-file-is-an-error".into(), format!("prune failed because a file vanished concurrently: {}", e)));
+        }
+        let gone: Vec<String> = before.keys().filter(|k| !after.contains_key(*k)).cloned().collect();
+        let restamped: Vec<String> = before.iter().filter(|(k, b)| after.get(*k).map(|a| a.mtime != b.mtime && a.atime < a.mtime).unwrap_or(false)).map(|(k, _)| k.clone()).collect();
+        // the plan is fixed once the listing is complete
+        let listed = ev.iter().find(|e| e.call == "readdir" && e.ret == 0).map(|e| e.idx).unwrap_or(u32::MAX);
+        Ok((gone, restamped, calls, hit, listed))
+    };
+    let (gone_ref, restamped_ref, calls, _, listed) = run(None)?;
+    if restamped_ref.len() < 2 || k >= calls || k <= listed {
+        return Ok(false);
+    }
+    // X: the first file the reference run moved back
+    let x = restamped_ref[0].clone();
+    let (gone, restamped, _, hit, _) = run(Some((k, x.clone())))?;
+    if !hit {
+        return Ok(false);
+    }
+    for g in &gone_ref {
+        if !gone.contains(g) {
+            return Err(("maintenance:vanish-changes-victims".into(), format!("with {} vanishing before call {}, victim {} of the undisturbed run survived", x, k, g)));
+        }
+    }
+    for g in &gone {
+        if !gone_ref.contains(g) && *g != x {
+            return Err(("maintenance:vanish-changes-victims".into(), format!("with {} vanishing before call {}, {} was deleted although the undisturbed run keeps it", x, k, g)));
+        }
+    }
+    for r in restamped_ref.iter().filter(|r| **r != x) {
+        if !restamped.contains(r) {
+            return Err(("maintenance:vanish-derails-reprieves".into(), format!("with {} vanishing before call {} of the maintenance, spared file {} was not moved to the back of the queue (its read mark is still set)", x, k, r)));
+        }
+    }
+    Ok(true)
+}
+
 pub fn replay(v: &serde_json::Value) -> Result<(), String> {
     let c: Case = serde_json::from_value(v["case"].clone()).map_err(|e| e.to_string())?;
+    if let Some(k) = v["vanish_before_call"].as_u64() {
+        drop_privileges();
+        let scratch = Scratch::new("c07r");
+        return judge_vanish(&scratch.path, &c, k as u32).map(|_| ()).map_err(|(s, d)| format!("{}: {}", s, d));
+    }
     drop_privileges();
     let scratch = Scratch::new("c07r");
     judge(&scratch.path, &c).map(|_| ()).map_err(|(s, d)| format!("{}: {}", s, d))
@@ -250,6 +327,27 @@ pub fn run(ctx: &Ctx) -> Report {
     if let Some((msg, c)) = found {
         let (sig, detail) = msg.split_once('|').map(|(a, b)| (a.to_string(), b.to_string())).unwrap_or(("maintenance".into(), msg.clone()));
         rep.violation(&sig, detail, json!({"case": c}));
+    }
+    // concurrency variant: a read-marked file vanishes before each call of the maintenance in turn
+    let mut rng = ctx.rng(77);
+    let pops = ctx.share(ctx.scale(320, 6000));
+    for _ in 0..pops {
+        let n = 3 + rng.below(8) as usize;
+        let files: Vec<(u8, u8)> = (0..n).map(|_| (rng.below(6) as u8, if rng.chance(3, 5) { 1 + rng.below(2) as u8 } else { 0 })).collect();
+        let c = Case { files, subdirs: 0, capacity: rng.below(n as u64) as usize, route: 0, own_existing: None };
+        for k in 0..80u32 {
+            match judge_vanish(&scratch.path, &c, k) {
+                Ok(true) => {
+                    rep.case(Some(fnv(format!("vanish{:?}{}", c, k).as_bytes())));
+                    rep.label("route:prune with a read-marked file vanishing mid-maintenance");
+                }
+                Ok(false) => {}
+                Err((sig, detail)) => {
+                    rep.violation(&sig, detail, json!({"case": c, "vanish_before_call": k}));
+                    break;
+                }
+            }
+        }
     }
     rep
 }
